@@ -235,7 +235,7 @@ impl IpvoteRunner {
                     f, got, c, self.min
                 ));
             }
-            if rival >= spec_thr(c) {
+            if c >= 1 && rival >= spec_thr(c) {
                 out.push(format!(
                     "!MON C17 rival-within-margin fam={} addr={} votes={} rival-votes={} margin-threshold={}",
                     f, got, c, rival, spec_thr(c)
@@ -429,6 +429,14 @@ const ODD_COUNTS: [usize; 9] = [45, 85, 165, 175, 325, 335, 345, 355, 365];
 
 pub fn gen_case(rng: &mut Rng, tier: &str, _profile: &str, stats: &mut Stats) -> Vec<String> {
     let mut ops = Vec::new();
+    // threshold-only cases (kept apart from the vote sequences so that a minimised failing case
+    // names one mechanism)
+    if rng.chance(1, 50) {
+        stats.bump("gen.case.threshold");
+        ops.push(format!("vthr {}", rng.range(0, 4000)));
+        ops.push(format!("vthrcode {}", rng.range(3, 90)));
+        return ops;
+    }
     // rejected constructor
     if rng.chance(1, 60) {
         ops.push(format!("vnew {} 1000", rng.below(2)));
@@ -640,12 +648,6 @@ pub fn gen_case(rng: &mut Rng, tier: &str, _profile: &str, stats: &mut Stats) ->
                 ops.push("vmaj".into());
             }
         }
-    }
-    if rng.chance(1, 50) {
-        ops.push(format!("vthr {}", rng.range(0, 4000)));
-    }
-    if rng.chance(1, 80) {
-        ops.push(format!("vthrcode {}", rng.range(3, 90)));
     }
     ops
 }
